@@ -20,6 +20,7 @@
 import Lattigo.Proofs.Params
 import Lattigo.Proofs.ParamsGen
 import Lattigo.Proofs.ParamsTerm
+import Lattigo.Props.C19Gen
 
 namespace Lattigo.Params
 open Lattigo
@@ -336,6 +337,185 @@ theorem accepted_logNthRoot (o : Oracle) (fuel : Nat) (lit : Literal) (a : Accep
     omega
   omega
 
+/-! ### overflow margins -/
+
+theorem foldl_max_ge (l : List Nat) : ∀ (acc x : Nat), (x ∈ l ∨ x ≤ acc) → x ≤ l.foldl max acc := by
+  induction l with
+  | nil => intro acc x h; rcases h with h | h; cases h; simpa using h
+  | cons y ys ih =>
+    intro acc x h
+    simp only [List.foldl_cons]
+    apply ih
+    rcases h with h | h
+    · rcases List.mem_cons.mp h with rfl | h
+      · exact Or.inr (Nat.le_max_right _ _)
+      · exact Or.inl h
+    · exact Or.inr (Nat.le_trans h (Nat.le_max_left _ _))
+
+theorem foldl_max_mem (l : List Nat) : ∀ (acc : Nat), l.foldl max acc ∈ l ∨ l.foldl max acc = acc := by
+  induction l with
+  | nil => intro acc; exact Or.inr rfl
+  | cons y ys ih =>
+    intro acc
+    simp only [List.foldl_cons]
+    rcases ih (max acc y) with h | h
+    · exact Or.inl (List.mem_cons_of_mem _ h)
+    · rw [h]
+      rcases Nat.le_total acc y with h' | h'
+      · rw [Nat.max_eq_right h']; exact Or.inl (List.mem_cons_self ..)
+      · rw [Nat.max_eq_left h']; exact Or.inr rfl
+
+theorem maxList_ge {l : List Nat} {x : Nat} (h : x ∈ l) : x ≤ maxList l := foldl_max_ge l 0 x (Or.inl h)
+
+theorem maxList_mem {l : List Nat} (hpos : ∀ x ∈ l, 0 < x) (hne : l ≠ []) : maxList l ∈ l := by
+  rcases foldl_max_mem l 0 with h | h
+  · exact h
+  · obtain ⟨x, hx⟩ := List.exists_mem_of_ne_nil l hne
+    have := maxList_ge hx
+    have := hpos x hx
+    unfold maxList at *
+    omega
+
+/-- an odd number above 1 does not divide `2^64` -/
+theorem odd_not_dvd_W {m : Nat} (hodd : m % 2 = 1) (h1 : 1 < m) : W % m ≠ 0 := by
+  intro h
+  have hd : m ∣ 2 ^ 64 := by rw [← W_eq]; exact Nat.dvd_of_mod_eq_zero h
+  have hc : Nat.Coprime m (2 ^ 64) := Nat.Coprime.pow_right _ (Nat.coprime_two_right.mpr (Nat.odd_iff.mpr hodd))
+  have := Nat.Coprime.eq_one_of_dvd hc hd
+  omega
+
+/-- **overflowMargin_sound** — for a non-empty list of odd moduli above 1 (every accepted chain), the margin
+    is `floor(2^64 / max)`: `margin · q < 2^64` for EVERY modulus `q` of the list (not only the one of
+    the working level), and it is the largest such number for the largest modulus. -/
+theorem overflowMargin_sound (l : List Nat) (hne : l ≠ []) (hodd : ∀ q ∈ l, q % 2 = 1)
+    (hgt : ∀ q ∈ l, 1 < q) :
+    overflowMargin l = 2 ^ 64 / maxList l ∧ (∀ q ∈ l, overflowMargin l * q < 2 ^ 64) ∧
+    2 ^ 64 < (overflowMargin l + 1) * maxList l := by
+  have hm := maxList_mem (fun x hx => by have := hgt x hx; omega) hne
+  have hnd := odd_not_dvd_W (hodd _ hm) (hgt _ hm)
+  have hpos : 0 < maxList l := by have := hgt _ hm; omega
+  have hdm := Nat.div_add_mod W (maxList l)
+  have hlt := Nat.mod_lt W hpos
+  have heq : (W - 1) / maxList l = W / maxList l := by
+    apply Nat.div_eq_of_lt_le
+    · have : W / maxList l * maxList l = maxList l * (W / maxList l) := Nat.mul_comm _ _
+      omega
+    · have : (W / maxList l + 1) * maxList l = maxList l * (W / maxList l) + maxList l := by ring
+      omega
+  unfold overflowMargin
+  rw [heq, ← W_eq]
+  refine ⟨rfl, ?_, ?_⟩
+  · intro q hq
+    have hle := maxList_ge hq
+    have : W / maxList l * q ≤ W / maxList l * maxList l := Nat.mul_le_mul_left _ hle
+    have : W / maxList l * maxList l = maxList l * (W / maxList l) := Nat.mul_comm _ _
+    omega
+  · have : (W / maxList l + 1) * maxList l = maxList l * (W / maxList l) + maxList l := by ring
+    omega
+
+/-- **qiOverflowMargin_sound** — for an accepted literal and a level of the chain, `QiOverflowMargin(level)`
+    times any prime of `Q[:level+1]` stays below `2^64` (this is what makes the lazy accumulators of the
+    gadget product safe), and it is `floor(2^64 / max Q[:level+1])`. Same for `PiOverflowMargin`. -/
+theorem qiOverflowMargin_sound (o : Oracle) (ho : PrimeSound o) (fuel : Nat) (lit : Literal)
+    (a : Accepted) (h : newParametersFromLiteral o fuel lit = .ok a) (level : Nat) :
+    (∃ m : Nat, a.qiOverflowMargin level = (m : Int) ∧ m = 2 ^ 64 / maxList (a.q.take (level + 1)) ∧
+      ∀ q ∈ a.q.take (level + 1), m * q < 2 ^ 64) ∧
+    (a.p ≠ [] → ∃ m : Nat, a.piOverflowMargin level = (m : Int) ∧
+      m = 2 ^ 64 / maxList (a.p.take (level + 1)) ∧ ∀ q ∈ a.p.take (level + 1), m * q < 2 ^ 64) := by
+  obtain ⟨_, _, hrt, hq, _, hall⟩ := accepted_sound o ho fuel lit a h
+  have hnth := (accepted_logNthRoot o fuel lit a h).1
+  have hodd : ∀ m ∈ a.q ++ a.p, m % 2 = 1 ∧ 1 < m := by
+    intro m hm
+    obtain ⟨hp, hmod, _⟩ := hall m hm
+    have h2 : 2 ∣ a.nthRoot := by
+      rw [hnth]; exact Dvd.intro_left (2 ^ (a.logN + a.ringType)) (by rw [← Nat.pow_succ]; congr 1; omega)
+    have : m % 2 = (m % a.nthRoot) % 2 := (Nat.mod_mod_of_dvd m h2).symm
+    rw [hmod] at this
+    exact ⟨this, hp.one_lt⟩
+  have take_ne : ∀ (l : List Nat), l ≠ [] → l.take (level + 1) ≠ [] := by
+    intro l hl
+    cases l with
+    | nil => exact absurd rfl hl
+    | cons x xs => simp
+  constructor
+  · have hs := overflowMargin_sound (a.q.take (level + 1)) (take_ne _ hq)
+      (fun q hq' => (hodd q (List.mem_append_left _ (List.mem_of_mem_take hq'))).1)
+      (fun q hq' => (hodd q (List.mem_append_left _ (List.mem_of_mem_take hq'))).2)
+    refine ⟨overflowMargin (a.q.take (level + 1)), ?_, hs.1, hs.2.1⟩
+    unfold Accepted.qiOverflowMargin
+    have : a.q.isEmpty = false := by
+      cases hqq : a.q with
+      | nil => exact absurd hqq hq
+      | cons _ _ => rfl
+    simp [this]
+  · intro hp
+    have hs := overflowMargin_sound (a.p.take (level + 1)) (take_ne _ hp)
+      (fun q hq' => (hodd q (List.mem_append_right _ (List.mem_of_mem_take hq'))).1)
+      (fun q hq' => (hodd q (List.mem_append_right _ (List.mem_of_mem_take hq'))).2)
+    refine ⟨overflowMargin (a.p.take (level + 1)), ?_, hs.1, hs.2.1⟩
+    unfold Accepted.piOverflowMargin
+    have : a.p.isEmpty = false := by
+      cases hpp : a.p with
+      | nil => exact absurd hpp hp
+      | cons _ _ => rfl
+    simp [this]
+
+/-- the margin is governed by the LARGEST prime up to the level, not by the prime of the level:
+    for Q = (2^60-ish, 45 bits, 45 bits) it is 16 at every level (a test on a concrete chain) -/
+example : let a : Accepted := { logN := 6, q := [1152921504606844417, 35184372088961, 35184372088321], p := [], ringType := 0 }
+    (a.qiOverflowMargin 0, a.qiOverflowMargin 1, a.qiOverflowMargin 2) = (16, 16, 16) ∧
+    2 ^ 64 / 35184372088321 = 524288 := by decide +kernel
+
+/-- **baseRNS_def** — `BaseRNSDecompositionVectorSize(levelQ, levelP) = ⌈(levelQ+1)/(levelP+1)⌉` for `levelP ≥ 0`:
+    the least `d` with `d·(levelP+1) ≥ levelQ+1` -/
+theorem baseRNS_def (levelQ : Nat) (levelP : Nat) :
+    let d := baseRNSDecompositionVectorSize levelQ (levelP : Int)
+    levelQ + 1 ≤ d * (levelP + 1) ∧ (d - 1) * (levelP + 1) < levelQ + 1 := by
+  have hne : ((levelP : Int) = -1) = False := by
+    simp only [eq_iff_iff, iff_false]; omega
+  simp only [baseRNSDecompositionVectorSize, hne, if_false, Int.toNat_natCast]
+  have hpos : 0 < levelP + 1 := by omega
+  have h1 := Nat.div_add_mod (levelQ + levelP + 1) (levelP + 1)
+  have h2 := Nat.mod_lt (levelQ + levelP + 1) hpos
+  generalize (levelQ + levelP + 1) / (levelP + 1) = d at *
+  generalize (levelQ + levelP + 1) % (levelP + 1) = r at *
+  constructor
+  · have : d * (levelP + 1) = (levelP + 1) * d := Nat.mul_comm _ _
+    omega
+  · rcases d with _ | d
+    · simp
+    · have : (d + 1 - 1) * (levelP + 1) = (levelP + 1) * d := by rw [Nat.add_sub_cancel, Nat.mul_comm]
+      have : (levelP + 1) * (d + 1) = (levelP + 1) * d + (levelP + 1) := by ring
+      omega
+
+/-- **baseTwo_def** — the digit count of `BaseTwoDecompositionVectorSize` covers every residue:
+    `q < 2^(w·digits)` for every prime, whenever the power-of-two decomposition is active -/
+theorem baseTwo_def (a : Accepted) (levelP : Int) (w : Nat) (hw : 0 < w) (hp : levelP ≤ 0) :
+    List.Forall₂ (fun q d => q < 2 ^ (w * d) ∧ (d - 1) * w < len64 q ∨ q = 0)
+      a.q (a.baseTwoDecompositionVectorSize levelP w) := by
+  unfold Accepted.baseTwoDecompositionVectorSize
+  have h1 : (w = 0) = False := by simp; omega
+  have h2 : (levelP > 0) = False := by simp; omega
+  simp only [h1, h2, decide_false, Bool.or_self, Bool.false_eq_true, if_false]
+  rw [List.forall₂_map_right_iff, List.forall₂_same]
+  intro q _
+  by_cases hq : q = 0
+  · exact Or.inr hq
+  · left
+    have hd := Nat.div_add_mod (len64 q + w - 1) w
+    have hm := Nat.mod_lt (len64 q + w - 1) hw
+    generalize (len64 q + w - 1) / w = d at *
+    generalize (len64 q + w - 1) % w = r at *
+    constructor
+    · apply (len64_le_iff q (w * d)).mp
+      omega
+    · rcases d with _ | d
+      · simp
+        unfold len64; simp [hq]
+      · have : (d + 1 - 1) * w = w * d := by rw [Nat.add_sub_cancel, Nat.mul_comm]
+        have : w * (d + 1) = w * d + w := by ring
+        omega
+
 end Lattigo.Params
 
 #print axioms Lattigo.Params.accepted_sound
@@ -350,5 +530,9 @@ end Lattigo.Params
 #print axioms Lattigo.Params.exported_above_table
 #print axioms Lattigo.Params.galoisElement_def
 #print axioms Lattigo.Params.modInvGaloisElement_def
+#print axioms Lattigo.Params.overflowMargin_sound
+#print axioms Lattigo.Params.qiOverflowMargin_sound
+#print axioms Lattigo.Params.baseRNS_def
+#print axioms Lattigo.Params.baseTwo_def
 #print axioms Lattigo.Params.derived_defs
 #print axioms Lattigo.Params.accepted_logNthRoot
